@@ -257,8 +257,18 @@ def check_time_column(ctx):
     rows = [s for s in wv.statements() if isinstance(s, ast.Assign) and isinstance(s.targets[0], ast.Subscript) and isinstance(s.targets[0].slice, ast.Name)]
     okr = False
     if len(rows) == 1:
+        from ..astutil import enumerate_elem_subst
+
         iv = U(rows[0].targets[0].slice)
-        okr = U(wv.expand(rows[0].value, rows[0], stop=(iv,))) == f"(self.times[{iv}],) + self.droplets[{iv}].data.tolist()"
+        rowx = wv.expand(rows[0].value, rows[0], stop=(iv,))
+        lpq_ = stmt_index(wv).enclosing(rows[0], (ast.For,))
+        if lpq_ is not None:
+            rowx = enumerate_elem_subst(rowx, lpq_[0])
+            cover = U(lpq_[0].iter) in ("range(len(self))", "range(len(self.times))", "range(len(self.droplets))", "enumerate(self.times)", "enumerate(self.droplets)") or \
+                U(wv.expand(lpq_[0].iter, lpq_[0])) in ("range(len(self))", "range(len(self.times))", "range(len(self.droplets))")
+        else:
+            cover = False
+        okr = cover and U(rowx) == f"(self.times[{iv}],) + self.droplets[{iv}].data.tolist()"
     ctx.decide(okr, "IOAGREE", site + ":rows", (w, rows[0]) if rows else w, "row i = (times[i], *droplets[i].data)", "rows are not (self.times[i],) + self.droplets[i].data.tolist()")
     r = m.func(f"{TR}.DropletTrack._from_hdf_dataset")
     rv = view(m, r)
